@@ -57,36 +57,54 @@ def pmaxAll : List Pt → Pt
   | [p] => p
   | p :: ps => pmax p (pmaxAll ps)
 
-/-- `HypervolumeContribution2D::smallest(points, 1[, ref])[0].value`: the front is ordered
-lexicographically (`std::sort`, stable for ≤ 16 elements in libstdc++), with a reference point
-every point is a candidate, without one the two extreme points are not; the contributions are
-hypervolume differences; the size-1 heap keeps the *last* of several minimal entries; with no
-candidate the default-constructed pair (index 0) is returned. -/
-def hvLeast2d (hv : List Pt → Pt → Int) (ref : Option Pt) (points : List Pt) : Nat :=
+/-- the `(contribution, original index)` pairs `HypervolumeContribution2D::smallest` pushes through its
+heap, in front order: the front is ordered lexicographically (`std::sort`; equal points are
+interchangeable), with a reference point it is extended by the sentinels `(·, ref₂)` and `(ref₁, ·)` and
+every point gets `(front[i+1].f1 - front[i].f1) * (front[i-1].f2 - front[i].f2)`; without reference
+point only the interior points of the ordered front do. -/
+def contribs2dLit (ref : Option Pt) (points : List Pt) : List (Int × Nat) :=
   let sorted := points.zipIdx.mergeSort lexLe
-  let r := ref.getD (pmaxAll points)
-  let cands := match ref with
-    | some _ => sorted
-    | none => (sorted.drop 1).dropLast
-  match lastMin (cands.map fun c => (contribBy hv points r c.2, c.2)) with
+  match ref with
+  | some r => contribs2dGo (px r) (py r) sorted
+  | none =>
+    match sorted with
+    | [] => []
+    | first :: rest => (contribs2dGo 0 (py first.1) rest).dropLast
+
+/-- `HypervolumeContribution2D::smallest(points, 1[, ref])[0].value`: the size-1 heap keeps the
+*last* of several minimal entries (libstdc++ `push_heap`/`pop_heap`); with no candidate the
+default-constructed pair (index 0) is returned. -/
+def hvLeast2d (ref : Option Pt) (points : List Pt) : Nat :=
+  match lastMin (contribs2dLit ref points) with
   | some b => b.2
   | none => 0
 
+/-- strictly below the reference point in every objective -/
+def ltAll : Pt → Pt → Bool
+  | a :: as, b :: bs => decide (a < b) && ltAll as bs
+  | [], [] => true
+  | _, _ => false
+
 /-- `HypervolumeContribution3D::smallest(points, 1, ref)[0].value`: points ordered by the third
-coordinate, contributions sorted by key (`std::sort`, stable for ≤ 16 elements): the *first*
-minimal entry in that order -/
+coordinate, contributions (hypervolume differences, computed with `hv`) sorted by key (`std::sort`,
+stable for ≤ 16 elements): the *first* minimal entry in that order.  A point that is not strictly
+below the reference point has contribution 0 and comes first (behaviour of the repaired routine,
+finding F-C14-2; the unrepaired one reads out of bounds there and the generator avoids the region). -/
 def hvLeast3d (hv : List Pt → Pt → Int) (r : Pt) (points : List Pt) : Nat :=
-  let sorted := points.zipIdx.mergeSort fun a b => decide (a.1.getD 2 0 ≤ b.1.getD 2 0)
-  match firstMinPair (sorted.map fun c => (contribBy hv points r c.2, c.2)) with
-  | some b => b.2
-  | none => 0
+  match points.zipIdx.filter fun c => !ltAll c.1 r with
+  | c :: _ => c.2
+  | [] =>
+    let sorted := points.zipIdx.mergeSort fun a b => decide (a.1.getD 2 0 ≤ b.1.getD 2 0)
+    match firstMinPair (sorted.map fun c => (contribBy hv points r c.2, c.2)) with
+    | some b => b.2
+    | none => 0
 
 /-- `HypervolumeIndicator::leastContributor` with a reference point, 2 or 3 objectives -/
 def hvLeastRef (r : Pt) : LeastFn := fun points _ =>
-  if r.length == 2 then hvLeast2d hv2d (some r) points else hvLeast3d hvWfg r points
+  if r.length == 2 then hvLeast2d (some r) points else hvLeast3d hvWfg r points
 
 /-- `HypervolumeIndicator::leastContributor` without reference point, 2 objectives -/
-def hvLeastNoRef2d : LeastFn := fun points _ => hvLeast2d hv2d none points
+def hvLeastNoRef2d : LeastFn := fun points _ => hvLeast2d none points
 
 /-! ### AdditiveEpsilonIndicator -/
 
